@@ -111,6 +111,11 @@ pub struct KnownFinding {
     /// input is reported as new
     #[serde(default)]
     pub inputs: Vec<String>,
+    /// inputs on which the finding additionally manifests within the bounds of the thorough tier
+    /// only; not consulted by the quick tier, so that a new failure of the same class on such an
+    /// input in the quick tier is still reported
+    #[serde(default)]
+    pub inputs_thorough: Vec<String>,
 }
 
 pub fn load_known() -> Vec<KnownFinding> {
@@ -149,9 +154,9 @@ pub fn finish(rep: Report<'_>, stats: &Stats, viols: &[Viol], wall_s: f64) -> i3
                 k.status == "open"
                     && k.property == v.property
                     && v.signature.starts_with(&k.signature_prefix)
-                    && (k.inputs.is_empty() || {
+                    && ((k.inputs.is_empty() && k.inputs_thorough.is_empty()) || {
                         let rest = v.signature[k.signature_prefix.len()..].trim_start_matches(':');
-                        k.inputs.iter().any(|i| i == rest)
+                        k.inputs.iter().any(|i| i == rest) || (rep.tier == "thorough" && k.inputs_thorough.iter().any(|i| i == rest))
                     })
             });
         match k {
